@@ -1,5 +1,6 @@
 pub mod c01;
 pub mod c02;
+pub mod c04;
 pub mod c05;
 pub mod c09;
 pub mod c10;
